@@ -54,6 +54,27 @@ def generate(chk, prop, tier, seed):
                 if b["ed"] and any(x["v"] > 1 for x in b["out"]):
                     b["fam"] = "variant-sweep"
                     behs.append(b)
+    if prop == "C04":
+        # a continuation inside the prefix of a statement (behind the label, inside / behind 'name:'), labelled and named constructs;
+        # every layout edit on every subroutine / function header variant
+        for cfg, fam in (("Perturb_c04l_%s.cfg" % ("quick" if tier == "quick" else "thorough"), "exh-prefix-breaks"), ("Perturb_c04u_quick.cfg", "exh-unit-headers")):
+            r = tlc.run("MCPerturb.tla", cfg, timeout=20000)
+            if not r.ok():
+                raise MachineryError("TLC failed on %s: %s %s" % (cfg, r.invariant_violated, r.error))
+            chk.add_tlc(r)
+            chk.cov["tlc_runs"].append({"cfg": cfg, "generated": r.generated, "distinct": r.distinct, "behaviours": len(r.beh), "wall_s": r.wall_s})
+            for b in r.beh:
+                if not b["ed"]:
+                    continue
+                e = b["ed"][0]
+                if fam == "exh-prefix-breaks":
+                    o = b["out"][e["pos"] - 1] if e["pos"] <= len(b["out"]) else None
+                    if not (e["t"] == "brk" and e["a"] in (8, 9) and o and ((o["l"] and o["k"] != "dol") or (o["n"] and o["k"] not in ("end", "endu", "enddo")))):
+                        continue
+                elif e["pos"] != 1 and e["t"] != "case":
+                    continue
+                b["fam"] = fam
+                behs.append(b)
     if prop == "C11":
         cfg = "Perturb_c11j_%s.cfg" % ("quick" if tier == "quick" else "thorough")
         r = tlc.run("MCPerturb.tla", cfg, timeout=6000)
@@ -64,6 +85,19 @@ def generate(chk, prop, tier, seed):
         for b in r.beh:
             if any(e["t"] == "join" and e["a"] > 0 for e in b["ed"]):
                 b["fam"] = "exh-joined"
+                behs.append(b)
+    if prop == "C11":
+        # two full-line comments at one boundary, in both orders (a directive-form comment behind a plain one and the reverse)
+        cfg = "Perturb_c11p_quick.cfg"
+        r = tlc.run("MCPerturb.tla", cfg, timeout=6000)
+        if not r.ok():
+            raise MachineryError("TLC failed on %s: %s %s" % (cfg, r.invariant_violated, r.error))
+        chk.add_tlc(r)
+        chk.cov["tlc_runs"].append({"cfg": cfg, "generated": r.generated, "distinct": r.distinct, "behaviours": len(r.beh), "wall_s": r.wall_s})
+        for b in r.beh:
+            e = b["ed"]
+            if len(e) == 2 and e[0]["pos"] == e[1]["pos"] and e[0]["a"] == 1 and e[1]["a"] == 1 and (tier != "quick" or (e[0]["b"] in (6, 7)) != (e[1]["b"] in (6, 7))):
+                b["fam"] = "exh-comment-pairs"
                 behs.append(b)
     if prop == "C11":
         cfg = "Perturb_c11s_%s.cfg" % ("quick" if tier == "quick" else "thorough")
@@ -238,6 +272,10 @@ def build_case(prop, b):
                 dict(name="onfile", src=src, std=std, ic=True, omp=True, reader="file"),       # the same through FortranFileReader
                 dict(name="onkeep", src=src, std=std, ic=False, omp=True, want=["leaves"]),
                 dict(name="Pkeep", src=plain, std=std, ic=False, want=["leaves"])]
+        if b["id"] % 3 == 0 and src[:1] not in " #!":
+            # a history inside one reader: it is told 'fixed form, not strict', the first line (a unit header) starts in column 5 and makes it switch
+            # to free form by itself, and the conditional lines come after that switch
+            jobs.append(dict(name="onswitch", src="".join("    " + l + "\n" for l in src.split("\n")[:-1]), std=std, ic=True, omp=True, fmt=(False, False)))
         # the same in fixed form: sentinel !$ / c$ / *$ in columns 1-2 (continuation: sentinel, three blanks, mark in column 6)
         from .sourceform import fixed_render
         sty = ["!$", "c$", "*$", "C$"][b["id"] % 4]
@@ -500,6 +538,8 @@ def events_for(prop, case, res, D, ctr):
         claim("sametree", "P", ci=False, **ref("on"))
         claim("sametree", "Pminus", ci=False, **ref("off"))
         claim("sametree", "P", ci=False, **ref("onfile"))
+        if "onswitch" in J:
+            claim("sametree", "P", ci=False, **ref("onswitch"))
         for name in ("onkeep", "Pkeep"):
             lv = R[name].get("leaves")
             if lv is not None:
